@@ -208,6 +208,10 @@ def rec_executor_class():
 
     class RecExecutor(Executor):
         def __init__(self, *a, **kw):
+            if REC is not None and REC.scn.get("executor_permissive"):
+                # the single-operator flag is given to the scheduler only; the executor keeps its default (it would
+                # accept multi-operator containers) - a scheduler told to use single-operator containers must still do so
+                kw.pop("multi_operator_containers", None)
             super().__init__(*a, **kw)
             if REC is not None:
                 REC.executor = self
